@@ -702,7 +702,17 @@ def rule_nested_contains(ctx: Ctx, rule: str = "nested-exists") -> None:
             want = any(answers[:k])
             n += 1
             construct = "nested contains_behavior: True iff some alternative contains the behaviour"
-            if p.terminal == "return" and p.value == const(want):
+            def settle(v, extra=extra):
+                """the returned value with the assumed answers put in (bool(x) of a known x folded)"""
+                r = extra(v) if isinstance(v, tuple) else None
+                if r is not None:
+                    return r
+                if isinstance(v, tuple) and v and v[0] == "call" and v[1] == "bool" and len(v[2]) == 1:
+                    x = settle(v[2][0])
+                    return const(bool(x[1])) if is_const(x) else v
+                return v
+
+            if p.terminal == "return" and settle(p.value) == const(want):
                 ctx.ok(rule, fi.key, construct + " @ %d alternatives %s" % (k, list(answers[:k])), nontrivial=k > 0)
             else:
                 got = show(p.value, 2) if p.terminal == "return" else "raise " + str(p.exc_cls)
@@ -789,6 +799,81 @@ def rule_nested_le(ctx: Ctx, rule: str = "nested-forall-exists") -> None:
     ctx.floor("nested <= evaluations", n, 25)
 
 
+def _nested_intersect_semantic(ctx: Ctx, rule: str, construct: str) -> Optional[bool]:
+    """The same question put to the kernel interpreter: two alternatives a side, `|` and is_empty stubbed so that
+    the conjunction of alternatives i and j is a record that knows (i, j) and is empty as the scenario says, the
+    nested-list constructor stubbed to capture what it is handed.  True / False = decided, None = not followed."""
+    from itertools import product
+
+    from .termalg import NONE, ListV, Raised, Rec, TermAlg
+    from .termalg import Undecidable as _Und
+
+    prog = ctx.prog
+    fi = prog.func("NestedTermList.intersect")
+    init = prog.resolve_method("NestedTermList", "__init__")
+    orm = prog.resolve_method("PolyhedralTermList", "__or__")
+    emp_m = prog.resolve_method("PolyhedralTermList", "is_empty")
+    if init is None or orm is None or emp_m is None:
+        return None
+    allpairs = [(0, 0), (0, 1), (1, 0), (1, 1)]
+    n = 0
+    for fl in (True, False):
+        for answers in product([False, True], repeat=4):
+            emp = dict(zip(allpairs, answers))
+            seen: Dict[str, Any] = {}
+
+            def or_stub(ta, pos, kw):
+                a, b = pos[0], pos[1]
+                sa, sb = a.f.get("side"), b.f.get("side")
+                if {sa, sb} != {"self", "other"}:
+                    raise AnalysisError("a conjunction of %s and %s alternatives" % (sa, sb))
+                i, j = (a.f["idx"], b.f["idx"]) if sa == "self" else (b.f["idx"], a.f["idx"])
+                return Rec("PolyhedralTermList", {"pair": (i, j), "terms": ListV([])})
+
+            def emp_stub(ta, pos, kw, emp=emp):
+                pr = pos[0].f.get("pair")
+                if pr is None:
+                    raise AnalysisError("emptiness asked of something that is not the conjunction of one alternative of each side")
+                return emp[pr]
+
+            def init_stub(ta, pos, kw, seen=seen):
+                seen["list"] = pos[1] if len(pos) > 1 else kw.get("nested_termlist")
+                seen["flag"] = pos[2] if len(pos) > 2 else kw.get("force_empty_intersection")
+                pos[0].f["nested_termlist"] = seen["list"]
+                return NONE
+
+            stubs = {orm.key: or_stub, emp_m.key: emp_stub, init.key: init_stub}
+            for cname in prog.classes:
+                if prog.is_subclass(cname, "NestedTermList"):
+                    sub_init = prog.resolve_method(cname, "__init__")
+                    if sub_init is not None:
+                        stubs[sub_init.key] = init_stub
+            ta = TermAlg(prog, stubs=stubs)
+
+            def alts(side):
+                return Rec("NestedPolyhedra", {"nested_termlist": ListV([Rec("PolyhedralTermList", {"side": side, "idx": k, "terms": ListV([])}) for k in range(2)])})
+
+            try:
+                ta.call(fi, [alts("other"), fl], {}, self_val=alts("self"))
+            except Raised as r:
+                ctx.violation(rule, fi.key, construct, "raises %s (flag %s, empty pairs %s)" % (r.cls, fl, sorted(k for k, x in emp.items() if x)), where=fi.where)
+                return False
+            except (AnalysisError, _Und, KeyError, AttributeError):
+                return None
+            n += 1
+            lst = seen.get("list")
+            kept = [x.f.get("pair") for x in lst.items] if isinstance(lst, ListV) and all(isinstance(x, Rec) for x in lst.items) else None
+            want = {k for k, x in emp.items() if not x}
+            if kept is None or None in kept or set(kept) != want or len(kept) != len(set(kept)):
+                ctx.violation(rule, fi.key, construct, "with force_empty_intersection=%s and non-empty pairs %s the new list holds %s" % (fl, sorted(want), kept), where=fi.where)
+                return False
+            if seen.get("flag") is not fl:
+                ctx.violation(rule, fi.key, construct, "the flag handed to the new list is %r for %r" % (seen.get("flag"), fl), where=fi.where)
+                return False
+    ctx.ok(rule, fi.key, construct + " (%d runs)" % n)
+    return True
+
+
 def rule_nested_intersect(ctx: Ctx, rule: str = "nested-intersect") -> None:
     """C17: intersect builds the conjunction of every pair (one alternative of each side) and keeps exactly the
     non-empty ones, whatever the flag (assumption-driven: two alternatives a side, every emptiness assignment)."""
@@ -796,6 +881,8 @@ def rule_nested_intersect(ctx: Ctx, rule: str = "nested-intersect") -> None:
 
     prog = ctx.prog
     fi = prog.func("NestedTermList.intersect")
+    if _nested_intersect_semantic(ctx, rule, "intersect: the conjunction of each pair of alternatives is kept iff it is not empty") is not None:
+        return
     me, ot, flag = fi.params[0], fi.params[1], fi.params[2]
     sides = {("attr", ("param", me), "nested_termlist"): "self", ("attr", ("param", ot), "nested_termlist"): "other"}
 
